@@ -133,6 +133,18 @@ func judgeMidi(b []byte) {
 	if len(b) > 0 && b[0] == 0xFF && !cats[2] {
 		report("category:midi:FF-not-reset", "midi", b, "leading FF is not a real-time reset for midi.Message")
 	}
+	// membership asked through IsOneOf agrees with membership asked through Is
+	mcats := []midi.Type{midi.ChannelMsg, midi.SysCommonMsg, midi.RealTimeMsg, midi.SysExMsg, midi.UnknownMsg}
+	for i, ct := range mcats {
+		if m.IsOneOf(ct) != cats[i] {
+			report("category:midi:IsOneOf-disagrees-with-Is", "midi", b, fmt.Sprintf("Is(%s)=%v but IsOneOf(%s)=%v", ct, cats[i], ct, !cats[i]))
+			return
+		}
+	}
+	if !m.IsOneOf(mcats...) || m.IsOneOf() || m.IsOneOf(t) != m.Is(t) || m.IsOneOf(midi.UnknownMsg, t) != (m.Is(t) || cats[4]) {
+		report("category:midi:IsOneOf-disagrees-with-Is", "midi", b, fmt.Sprintf("type %s: IsOneOf(all five categories)=%v, IsOneOf()=%v, IsOneOf(own type)=%v, Is(own type)=%v", t, m.IsOneOf(mcats...), m.IsOneOf(), m.IsOneOf(t), m.Is(t)))
+		return
+	}
 	judgeAcc("midi", b, t, accs)
 }
 
@@ -206,6 +218,17 @@ func judgeSMF(b []byte) {
 		if m.IsPlayable() {
 			report("category:smf:meta-playable", "smf", b, "a message with leading FF is playable")
 		}
+	}
+	scats := []midi.Type{midi.ChannelMsg, midi.SysCommonMsg, midi.RealTimeMsg, midi.SysExMsg, midi.UnknownMsg, smf.MetaMsg}
+	for i, ct := range scats {
+		if m.IsOneOf(ct) != cats[i] {
+			report("category:smf:IsOneOf-disagrees-with-Is", "smf", b, fmt.Sprintf("Is(%s)=%v but IsOneOf(%s)=%v", ct, cats[i], ct, !cats[i]))
+			return
+		}
+	}
+	if !m.IsOneOf(scats...) || m.IsOneOf() || m.IsOneOf(t) != m.Is(t) {
+		report("category:smf:IsOneOf-disagrees-with-Is", "smf", b, fmt.Sprintf("type %s: IsOneOf(all six categories)=%v, IsOneOf()=%v, IsOneOf(own type)=%v, Is(own type)=%v", t, m.IsOneOf(scats...), m.IsOneOf(), m.IsOneOf(t), m.Is(t)))
+		return
 	}
 	judgeAcc("smf", b, t, accs)
 }
